@@ -56,7 +56,12 @@ def roundtrip(ctx, real, rec, data, sid, now_ns, mode, use_async, cases):
         if mode == "cache":
             sender.load(rec, explicit_params=ctx.rng.random() < 0.7 or rec.secret_algorithm != "DH" or rec.hash_name != "SHA512")
         out = sender.protect(data, sid, rk=rec.id if mode == "cache" or ctx.rng.random() < 0.5 else None, use_async=use_async)
+        # the sender reads its own blob back through the cache it protected with (the commonest use of the API)
+        own = sender.unprotect(bytes.fromhex(out[5:]), use_async=use_async) if out.startswith("done ") and mode != "public" else None
         sender.dump()
+    if own is not None and own != "done " + hx(data):
+        ctx.violation("unprotect(protect(x)) != x on the protecting cache", {"hash": rec.hash_name, "alg": rec.secret_algorithm, "mode": mode, "layout": "own-cache", "sid": sid, "len": len(data),
+                                                                            "time_ns": now_ns, "async": use_async, "real_crypto": real}, own[:80], "done " + hx(data)[:60])
     if not real:
         cases.append(sender.line())
     if not out.startswith("done "):
@@ -101,6 +106,13 @@ def run(ctx):
         now_ns = clocks(rng, 1)[0]
         ctx.count(f"plaintext_len:{'small' if n < 64 else 'large'}")
         roundtrip(ctx, False, rec, data, sid, now_ns, mode, rng.random() < 0.3, cases)
+    # every interval boundary of the clock, for every key configuration (L2 = 31 / 0, L1 = 31 / 0, L0 change)
+    B = clientsim.B
+    for rec in roots:
+        for (l0, l1, l2, d) in ((361, 5, 31, 0), (361, 5, 31, B - 1), (361, 31, 31, B - 1), (362, 0, 0, 0), (361, 6, 0, 0)):
+            now_ns = (((l0 * 32 + l1) * 32 + l2) * B + d - clientsim.EPOCH) * 100
+            roundtrip(ctx, False, rec, b"boundary", "S-1-5-21-1-2-3-1103", now_ns, "cache", False, cases)
+            ctx.count("clock:boundary")
     for n in lens:
         rec = rng.choice(roots)
         roundtrip(ctx, False, rec, toycrypto.stream(78, [n.to_bytes(4, "little")], n), "S-1-5-21-1-2-3-1103", clocks(rng, 1)[0], "cache", False, cases)
